@@ -16,6 +16,8 @@ DISTRACT = {"+": "a - b", "-": "a + b", "*": "a ** b", "/": "a // b", "//": "a /
             "and": "a or b", "or": "a and b", "not": "~a", "~": "not a"}
 LITERALS = {"5": 5, "1": 1, "0": 0, "2.5": 2.5, "1.0": 1.0, "'hi'": "hi", "True": True, "False": False}
 LIT_DISTRACT = {"5": "50", "1": "True", "0": "False", "2.5": "25", "1.0": "1", "'hi'": "'hi there'", "True": "1", "False": "0"}
+SPELLINGS = {"'hi'": ["'hi'", "u'hi'", '"hi"', "'h' 'i'", "'''hi'''"], "5": ["5", "0x5", "0b101", "0o5"],
+             "2.5": ["2.5", "25e-1", "2.50"], "1.0": ["1.0", "1e0", "1."], "1": ["1", "0x1", "0o1"], "0": ["0", "0x0", "00"]}
 TYPES = {"int": int, "float": float, "str": str, "bool": bool, "list": list, "dict": dict}
 TYPE_EXPR = {"int": "7", "float": "7.5", "str": "'s'", "bool": "True", "list": "[a]", "dict": "{a: b}"}
 TYPE_DISTRACT = {"int": "True", "float": "7", "str": "7", "bool": "1", "list": "(a, b)", "dict": "{a, b}"}
@@ -40,7 +42,9 @@ def occurrence(feature, k):
     if kind == "method":
         return "expr", "xs.%s(a)" % name
     if kind == "lit":
-        return "expr", name
+        # the same VALUE in the spellings Python's grammar offers (the syntax tree holds the value, whatever the spelling)
+        spell = SPELLINGS.get(name, [name])
+        return "expr", spell[k % len(spell)]
     if kind == "type":
         return "expr", TYPE_EXPR[name]
     if kind == "ast":
